@@ -70,6 +70,9 @@ RULES = [
     ("bare_bundle_comparison", "in_logical_chain", ['Bundle zza = {{ ("iron-plate", 1) }};', "Signal zz1 = (zza > 0) && ({x} > 1);"], ["bundle", "any(", "all("], True),
     ("bare_bundle_comparison", "against_signal", ['Bundle zza = {{ ("iron-plate", 1) }};', "Signal zz1 = zza == {x};"], ["bundle", "any(", "all("], True),
     ("bundle_absent_member", "select_after_arith", ['Bundle zza = {{ ("iron-plate", 1) }};', 'Signal zz1 = (zza * 2)["coal"];'], ["not found", "not in", "bundle"], True),
+    ("bundle_absent_member", "select_after_wider_literal", ['Bundle zza = {{ ("iron-plate", 1), ("coal", 3) }};', 'Bundle zzw = {{ zza, ("steel-plate", 3) }};', 'Signal zz1 = zza["steel-plate"];'], ["not found", "not in", "bundle"], True),
+    ("bundle_absent_member", "select_after_wider_literal_last", ['Bundle zza = {{ ("iron-plate", 1) }};', 'Bundle zzw = {{ ("steel-plate", 3), zza }};', 'Signal zz1 = zza["steel-plate"];'], ["not found", "not in", "bundle"], True),
+    ("bundle_absent_member", "select_after_bundle_op_copy", ['Bundle zza = {{ ("iron-plate", 1) }};', 'Bundle zzb = zza;', 'Bundle zzw = {{ zzb, ("steel-plate", 3) }};', 'Signal zz1 = zza["steel-plate"] + zzb["steel-plate"];'], ["not found", "not in", "bundle"], True),
     ("bundle_absent_member", "select_in_expression", ['Bundle zza = {{ ("iron-plate", 1), ("coal", 3) }};', 'Signal zz1 = zza["coal"] + zza["steel-plate"];'], ["not found", "not in", "bundle"], True),
     ("undefined_variable", "condition", ["Signal zz1 = (nope_var > 1) : {x};"], ["undefined", "not defined"], True),
     ("undefined_variable", "bundle_member", ["Bundle zz1 = {{ {x}, nope_var }};"], ["undefined", "not defined"], True),
